@@ -1305,7 +1305,7 @@ def _excl_upper_bound(cx, b, e, depth=0):
         cs = [x for x in (_excl_upper_bound(cx, b, e[2][0], depth + 1), _excl_upper_bound(cx, b, e[2][1], depth + 1)) if x]
         return min(cs) if cs else None
     sh = show(e)
-    m = re.fullmatch(r"(?:Range|Rev|RangeInclusive)::next\(var(\d+)\)@Some\.0", sh)
+    m = re.fullmatch(r"(?:Range|Rev|RangeInclusive|Iterator)::(?:next|find|rfind)\(var(\d+)(?:,closure:.*)?\)@Some\.0", sh)
     if m:
         K = int(m.group(1))
         for l2, kind, node in b.defs.get(K, []):
@@ -1315,6 +1315,30 @@ def _excl_upper_bound(cx, b, e, depth=0):
                     ce = ce[2][0]
             if ce and ce[0] == "agg" and ce[1] == "Range":
                 return _excl_upper_bound_hi(cx, b, ce[2][1], depth + 1)
+        return None
+    if sh == "arg2" and "{closure#" in b.path:
+        # the element parameter of a closure handed to an iterator adaptor in the enclosing function
+        pbs = [x for x in R.all_bodies() if x.path == b.path.rsplit("::{closure#", 1)[0]]
+        if not pbs:
+            return None
+        pb = pbs[0]
+
+        def _range_of(ex):
+            for _ in range(3):
+                if ex and ex[0] == "call" and ex[1].split("::")[-1] in ("into_iter", "rev") and ex[2]:
+                    ex = ex[2][0]
+            return ex if ex and ex[0] == "agg" and ex[1] == "Range" else None
+        for l2, t2 in pb.calls():
+            ce = pb.call_expr(t2)
+            if len(ce[2]) == 2 and show(ce[2][1]).startswith("closure:" + b.path) and ce[1].split("::")[-1] in ("find", "rfind", "any", "all", "position", "for_each", "take_while", "skip_while", "filter", "map"):
+                it = ce[2][0]
+                rg = _range_of(it)
+                mm = re.fullmatch(r"var(\d+)", show(it))
+                if rg is None and mm:
+                    for l3, kind, node in pb.defs.get(int(mm.group(1)), []):
+                        rg = rg or _range_of(pb.call_expr(node) if kind == "call" else pb.rvalue_expr(node["rv"]) if kind == "assign" else None)
+                if rg is not None:
+                    return _excl_upper_bound_hi(cx, pb, rg[2][1], depth + 1)
         return None
     m = re.fullmatch(r"var(\d+)", sh)
     if m:
